@@ -7,6 +7,7 @@ alignment 1) no padding byte, spare capacity, allocator or former content of the
 comparison; the correspondence run checks exactly that on the real operators with junk-filled blocks.
 -/
 import Cntgs.CompareProofs
+import Cntgs.EqProofs
 namespace Cntgs.C13
 
 /-- `!=` is the negation of `==` (`reference.hpp:151-163`, `vector.hpp:307-313`, `element.hpp:159-170`) -/
@@ -33,17 +34,73 @@ theorem elem_eq_symm_generic (ps : List Param) (a b : Elem)
     (hc : elemCounts a = elemCounts b) (h : elemEq ps a b = some true) : elemEq ps b a = some true :=
   (elemEq_iff_generic ps b a hno hb ha hc.symm).mpr ((elemEq_iff_generic ps a b hno ha hb hc).mp h).symm
 
+/-- **every parameter list** (memcmp runs and element-wise fields alike): references/elements with equal field sizes are
+    equal exactly when they hold equal field values.  `InRange`: the values fit their types (what the C++ types
+    guarantee; it makes the object representation injective). -/
+theorem elem_eq_iff_content (ps : List Param) (a b : Elem) (ha : a.length = ps.length) (hb : b.length = ps.length)
+    (hc : elemCounts a = elemCounts b) (hra : InRange ps a) (hrb : InRange ps b) :
+    elemEq ps a b = some true ↔ a = b :=
+  elemEq_iff ps a b ha hb hc hra hrb
+
+/-- FixedSize fields of different sizes are never equal, in either direction, whatever the values -/
+theorem elem_eq_false_if_fixed_sizes_differ (ps : List Param) (a b : Elem) (h : fixedSizesEq ps a b = false) :
+    elemEq ps a b = some false ∧ elemEq ps b a = some false :=
+  ⟨elemEq_fixed_size_differs ps a b h, elemEq_fixed_size_differs ps b a (by rw [fixedSizesEq_symm]; exact h)⟩
+
+/-- reflexive and symmetric for every parameter list -/
+theorem elem_eq_refl (ps : List Param) (a : Elem) (ha : a.length = ps.length) (hra : InRange ps a) : elemEq ps a a = some true :=
+  elemEq_refl ps a ha hra
+
+theorem elem_eq_symm (ps : List Param) (a b : Elem) (ha : a.length = ps.length) (hb : b.length = ps.length)
+    (hc : elemCounts a = elemCounts b) (hra : InRange ps a) (hrb : InRange ps b) (h : elemEq ps a b = some true) :
+    elemEq ps b a = some true :=
+  elemEq_symm ps a b ha hb hc hra hrb h
+
+/-- memcmp over a run of consecutive memcmp-able fields decides exactly the field-wise equality over that run: no byte
+    other than the object representations of those fields takes part (the run table breaks runs wherever padding can
+    occur: `RunsProofs`) -/
+theorem memcmp_run_is_fieldwise (ps : List Param) (a b : Elem) (k last : Nat) (ha : a.length = ps.length) (hb : b.length = ps.length)
+    (hc : elemCounts a = elemCounts b) (hra : InRange ps a) (hrb : InRange ps b) (hk : k ≤ last) (hlast : last < ps.length) :
+    runBytes ps a k last = runBytes ps b k last ↔ ∀ m (h1 : m < a.length) (h2 : m < b.length), k ≤ m → m ≤ last → a[m] = b[m] :=
+  runBytes_eq_iff ps a b k last ha hb hc hra hrb hk hlast
+
+/-- vectors on the element-wise path: equal exactly when they hold the same number of elements with equal field sizes
+    and equal field values -/
+theorem vec_eq_iff_content_elementwise (ps : List Param) (fa fb : List Nat) (a b : List Elem)
+    (hgen : (ps.all (·.ty.eqMemcmp) && storageAl ps == 1) = false)
+    (hwa : ∀ e ∈ a, e.length = ps.length ∧ InRange ps e) (hwb : ∀ e ∈ b, e.length = ps.length ∧ InRange ps e)
+    (hshape : a.map elemCounts = b.map elemCounts) :
+    vecEq ps fa fb a b = some true ↔ a = b :=
+  vecEq_iff_elementwise ps fa fb a b hgen hwa hwb hshape
+
+/-- whole-buffer path: vectors built with different fixed sizes are never equal unless one is empty — the bytes alone do
+    not decide (the former code compared only the bytes) -/
+theorem vec_eq_fastpath_needs_equal_fixed_sizes (ps : List Param) (fa fb : List Nat) (a b : List Elem)
+    (hgen : (ps.all (·.ty.eqMemcmp) && storageAl ps == 1) = true) (ha : a ≠ []) (hb : b ≠ [])
+    (hf : (fixedSizesOf ps fa == fixedSizesOf ps fb) = false) : vecEq ps fa fb a b = some false := by
+  unfold vecEq
+  cases a with
+  | nil => exact absurd rfl ha
+  | cons x xs =>
+    cases b with
+    | nil => exact absurd rfl hb
+    | cons y ys => simp [hgen, hf]
+
+/-- the witness of the repaired defect: `FixedSize<uint8_t>`, `{(1,2)}` with fixed size 2 against `{(1),(2)}` with fixed
+    size 1 hold the same bytes and are not equal -/
+example : vecEq [⟨.fixed, 1, 1, {}⟩] [2] [1] [[[1, 2]]] [[[1]], [[2]]] = some false := by decide +kernel
+
 /-- vectors of different sizes are never equal on the element-wise path (the former three-iterator
     `std::equal` made a vector equal to every longer vector it is a prefix of) -/
-theorem vec_eq_needs_equal_size (ps : List Param) (a b : List Elem)
+theorem vec_eq_needs_equal_size (ps : List Param) (fa fb : List Nat) (a b : List Elem)
     (hgen : (ps.all (·.ty.eqMemcmp) && storageAl ps == 1) = false) (hl : a.length ≠ b.length) :
-    vecEq ps a b = some false := by
+    vecEq ps fa fb a b = some false := by
   unfold vecEq
   simp [hgen, hl]
 
 /-- whole-buffer path: an empty vector equals exactly the empty vectors -/
-theorem vec_eq_empty (ps : List Param) (b : List Elem) :
-    vecEq ps [] b = some true ↔ b = [] ∨ ((ps.all (·.ty.eqMemcmp) && storageAl ps == 1) = false ∧ b.length = 0) := by
+theorem vec_eq_empty (ps : List Param) (fa fb : List Nat) (b : List Elem) :
+    vecEq ps fa fb [] b = some true ↔ b = [] ∨ ((ps.all (·.ty.eqMemcmp) && storageAl ps == 1) = false ∧ b.length = 0) := by
   unfold vecEq
   by_cases h : (ps.all (·.ty.eqMemcmp) && storageAl ps == 1) = true
   · simp [h]
@@ -59,6 +116,6 @@ example : eqTable [⟨.plain, 1, 1, {}⟩, ⟨.plain, 4, 4, { lexMemcmp := false
 /-- non-vacuity + the prefix witness: `{(1,2)}` vs `{(1,2),(3,4)}` on a list with a non-memcmp type -/
 example :
     let ps : List Param := [⟨.plain, 4, 1, { lexMemcmp := false }⟩, ⟨.plain, 4, 1, { eqMemcmp := false, lexMemcmp := false }⟩]
-    vecEq ps [[[1],[2]]] [[[1],[2]],[[3],[4]]] = some false ∧ vecEq ps [[[1],[2]]] [[[1],[2]]] = some true := by decide +kernel
+    vecEq ps [] [] [[[1],[2]]] [[[1],[2]],[[3],[4]]] = some false ∧ vecEq ps [] [] [[[1],[2]]] [[[1],[2]]] = some true := by decide +kernel
 
 end Cntgs.C13
